@@ -216,3 +216,4 @@ CFG = dict(
 )
 CFG["rule"] += ' The quick race stage includes a gRPC bidi call whose handler returns while a goroutine it started keeps receiving (grpc-leftover) and proxied bidi calls whose backend fails while the client is sending.'
 CFG["rule"] += ' Kind proxy-http-gzip-fail (echo and race stages): a proxied bidi method over plain HTTP with a streamed gzip body; the backend fails while the client is connected and silent; three gzip requests follow on the same mux while the first body goes on and ends.'
+CFG["rule"] += ' Kind webtext-leftover (echo and race stages): a gRPC-web-text bidi call over a pipe the client keeps open, whose handler returns 30 ms after a goroutine it started went into RecvMsg; ServeHTTP must return within 5 s.'
